@@ -2,6 +2,7 @@ import Chain33Model.Model.C25
 import Chain33Model.Proofs.C25Basic
 import Chain33Model.Proofs.C25Fresh
 import Chain33Model.Proofs.C25Lift
+import Chain33Model.Proofs.C25Tx
 /-!
 C25 — Best chain converges to the heaviest branch for any delivery order.  Property theorems.
 
@@ -10,7 +11,7 @@ Vocabulary (all from `Model/C25.lean` and `Proofs/C25*.lean`):
   `ProcessBlock` on a node holding only the genesis block `g` (finalised height `F`, margin `m`,
   sequence recording `r`);
 * `Tree g T` — `T` is a finite tree of valid blocks above `g`: ids (hashes) are unique, every
-  block's parent is in `g :: T` and is one lower;
+  block's parent is in `g :: T` and is one lower, no transaction occurs twice on one branch;
 * `TD U b` — total difficulty of `b`: the work summed along its parent chain in `U`;
 * `chainTo U b.height b` — the branch of `b`: `b`, its parent, …, down to genesis;
 * `view c h` — the height→hash index described by a chain `c`.
@@ -18,20 +19,23 @@ Vocabulary (all from `Model/C25.lean` and `Proofs/C25*.lean`):
 namespace C25
 
 /-- `disconnectBlock` undoes `connectBlock` on the main-chain-indexed state (height index,
-last height, best-chain view); index, orphan pool and finalised height are untouched.
-Hypotheses: the height slot of `b` was free and `b` sits directly above the stored height
-(both hold on every reachable state when `b` extends the tip); the sequence counter is not
-below its initial value −1. -/
+last height, best-chain view, transaction index); index, orphan pool and finalised height are
+untouched.  Hypotheses: the height slot of `b` was free and `b` sits directly above the stored
+height (both hold on every reachable state when `b` extends the tip); the sequence counter is
+not below its initial value −1; the transactions of `b` were not indexed before (valid block:
+no duplicate of a transaction already on the chain). -/
 theorem connect_disconnect_inverse (s s1 : State) (b : Block)
     (hc : connectBlock s b = .ok s1)
-    (hfree : s.h2h b.height = none) (hlast : s.last + 1 = b.height) (hseq : -1 ≤ s.lastSeq) :
+    (hfree : s.h2h b.height = none) (hlast : s.last + 1 = b.height) (hseq : -1 ≤ s.lastSeq)
+    (htx : ∀ t ∈ b.txs, s.txIdx t = none) :
     ∃ s2, disconnectBlock s1 b = .ok s2 ∧
-      s2.best = s.best ∧ s2.h2h = s.h2h ∧ s2.last = s.last ∧
+      s2.best = s.best ∧ s2.h2h = s.h2h ∧ s2.last = s.last ∧ s2.txIdx = s.txIdx ∧
       s2.index = s.index ∧ s2.orphans = s.orphans ∧ s2.fin = s.fin := by
   obtain ⟨tip, rest, sq, ptd, hbest, hpar, hsq, hptd, hs1⟩ := connectBlock_ok hc
   have hf := saveSeq_frame hsq
   have e1 : s1.best = b :: s.best := by rw [hs1]
   have e2 : s1.h2h = upd s.h2h b.height (some b.id) := by rw [hs1]
+  have e6 : s1.txIdx = addTxs s.txIdx b := by rw [hs1]
   have e3 : s1.lastSeq = sq.lastSeq := by rw [hs1]
   have e4 : s1.recSeq = sq.recSeq := by rw [hs1]
   have e5 : s1.index = s.index ∧ s1.orphans = s.orphans ∧ s1.fin = s.fin := by
@@ -44,15 +48,16 @@ theorem connect_disconnect_inverse (s s1 : State) (b : Block)
     · left; simp [seqAfter]; omega
   obtain ⟨s', hs'⟩ := hsq2
   have hf' := saveSeq_frame hs'
-  refine ⟨{ s' with h2h := upd s1.h2h b.height none, last := (b.height : Int) - 1, best := s.best }, ?_, ?_⟩
+  refine ⟨{ s' with h2h := upd s1.h2h b.height none, last := (b.height : Int) - 1, best := s.best,
+                    txIdx := delTxs s1.txIdx b }, ?_, ?_⟩
   · simp only [disconnectBlock, e1, hs']
-    simp [hf'.2.2.2.2.2.2.2.2.1]
-  · simp only [hf'.1, hf'.2.2.2.1, hf'.2.2.2.2.1, e5, e2, true_and, and_true]
-    exact ⟨upd_upd_none _ _ _ hfree, by omega⟩
+    simp [hf'.2.2.2.2.2.2.2.2.1, hf'.2.2.2.2.2.2.2.2.2.2]
+  · simp only [hf'.1, hf'.2.2.2.1, hf'.2.2.2.2.1, e5, e2, e6, true_and, and_true]
+    exact ⟨upd_upd_none _ _ _ hfree, by omega, delTxs_addTxs _ _ htx⟩
 
 /-- Non-vacuity: the hypotheses hold when block 1 is connected on a fresh genesis node. -/
-example : ∃ s1, connectBlock (init 0 12 true ⟨0, 0, 0, 5⟩) ⟨1, 0, 1, 3⟩ = .ok s1 ∧
-    (init 0 12 true ⟨0, 0, 0, 5⟩).h2h 1 = none ∧ (init 0 12 true ⟨0, 0, 0, 5⟩).last + 1 = (1 : Nat) := by
+example : ∃ s1, connectBlock (init 0 12 true ⟨0, 0, 0, 5, []⟩) ⟨1, 0, 1, 3, []⟩ = .ok s1 ∧
+    (init 0 12 true ⟨0, 0, 0, 5, []⟩).h2h 1 = none ∧ (init 0 12 true ⟨0, 0, 0, 5, []⟩).last + 1 = (1 : Nat) := by
   refine ⟨_, rfl, ?_, ?_⟩ <;> simp [init, upd]
 
 /-- **reorg_lands.**  In every reachable state (ANY blocks delivered, any order), for every
@@ -116,7 +121,7 @@ theorem tie_keeps_tip {g : Block} {T : List Block} (ht : Tree g T) (F m : Nat) (
   have hpp : p = p' := ht.uniq p hpU p' hp' (hpid.trans hp'id.symm)
   have hlk : lookup s.index b.parent = some p := by rw [← hpid]; exact lookup_of_mem hr.base.inv.uniq hp
   rcases maybeAcceptBlock_spec hr.base.inv hfresh hforph with ⟨e, _, hno | ⟨q, hq, hneq⟩⟩ |
-      ⟨q, tp, s0, s', res, hq, hqid, hqh, hqtd, he, hi0, hi', e1, e2, e3, e4, e5, e6, e7, hss, hout⟩
+      ⟨q, tp, s0, s', res, hq, hqid, hqh, hqtd, he, hi0, hi', e1, e2, e3, e4, e5, e6, e7, e8, hss, hout⟩
   · rw [hlk] at hno; cases hno
   · rw [hlk] at hq; cases hq; rw [hpp] at hneq; exact absurd hh' hneq
   · rw [he]
@@ -158,8 +163,8 @@ theorem accepted_closure {g : Block} {T : List Block} (ht : Tree g T) (F m : Nat
 that contains every block at least once: if the block `w` of greatest total difficulty is
 unique and at least the margin above the finalised height `F`, then
 * the node's best chain is the branch of `w`, and
-* the persisted chain — height index, last height, best-chain view, and on that branch the
-  stored blocks and total difficulties — is identical to that of a fresh node that received only
+* the persisted chain — height index, last height, best-chain view, transaction index, and on
+  that branch the stored blocks (headers, bodies) and total difficulties — is identical to that of a fresh node that received only
   that branch, in order (`sref`).
 (`F` is the finalised height the node starts with; the model's `resetFin` may lower it during
 the run, which the proof allows — a finaliser moving *up* concurrently is outside the model.) -/
@@ -171,6 +176,7 @@ theorem order_independent {g : Block} {T : List Block} (ht : Tree g T) (F m : Na
     let path := chainTo (g :: T) w.height w
     let sref := deliverAll (init F m r g) path.reverse.tail
     s.best = path ∧ sref.best = path ∧ s.h2h = sref.h2h ∧ s.last = sref.last ∧
+    s.txIdx = sref.txIdx ∧
     (∀ x ∈ path, s.stored x.id = sref.stored x.id ∧ s.tds x.id = sref.tds x.id) ∧
     s.orphans = [] := by
   intro s path sref
@@ -182,7 +188,7 @@ theorem order_independent {g : Block} {T : List Block} (ht : Tree g T) (F m : Na
   have hi := hr.base.inv
   have hi' := hrr.base.inv
   have hrefbest' : sref.best = path := hrefbest
-  refine ⟨hbest, hrefbest', ?_, ?_, ?_, ?_⟩
+  refine ⟨hbest, hrefbest', ?_, ?_, by rw [hr.base.txv, hrr.base.txv, hbest, hrefbest'], ?_, ?_⟩
   · funext h; rw [hi.h2h h, hi'.h2h h, hbest, hrefbest']
   · obtain ⟨t, rest, hb⟩ := List.exists_cons_of_ne_nil hi.linked.ne_nil
     rw [hi.last t rest hb, hi'.last t rest (by rw [hrefbest', ← hbest]; exact hb)]
@@ -203,11 +209,12 @@ theorem order_independent {g : Block} {T : List Block} (ht : Tree g T) (F m : Na
 /-- Non-vacuity of `order_independent`: a concrete tree with a fork (blocks 2–3 vs the heavier
 block 4 on trunk 1), margin 2, delivered children-first with a duplicate. -/
 example :
-    let g : Block := ⟨0, 0, 0, 5⟩
-    let T : List Block := [⟨1, 0, 1, 1⟩, ⟨2, 1, 2, 1⟩, ⟨3, 2, 3, 1⟩, ⟨4, 1, 2, 9⟩]
-    Tree g T ∧ (∀ b ∈ g :: T, b ≠ (⟨4, 1, 2, 9⟩ : Block) → TD (g :: T) b < TD (g :: T) ⟨4, 1, 2, 9⟩) ∧
-    (deliverAll (init 0 2 true g) [⟨3, 2, 3, 1⟩, ⟨4, 1, 2, 9⟩, ⟨2, 1, 2, 1⟩, ⟨4, 1, 2, 9⟩, ⟨1, 0, 1, 1⟩]).best.map (·.id)
-      = [4, 1, 0] := by
-  refine ⟨⟨rfl, by unfold UniqIds; decide, by decide⟩, by decide, by decide⟩
+    let g : Block := ⟨0, 0, 0, 5, []⟩
+    let T : List Block := [⟨1, 0, 1, 1, [7]⟩, ⟨2, 1, 2, 1, [8]⟩, ⟨3, 2, 3, 1, [9]⟩, ⟨4, 1, 2, 9, [8, 9]⟩]
+    let s := deliverAll (init 0 2 true g)
+      [⟨3, 2, 3, 1, [9]⟩, ⟨4, 1, 2, 9, [8, 9]⟩, ⟨2, 1, 2, 1, [8]⟩, ⟨4, 1, 2, 9, [8, 9]⟩, ⟨1, 0, 1, 1, [7]⟩]
+    Tree g T ∧ (∀ b ∈ g :: T, b ≠ (⟨4, 1, 2, 9, [8, 9]⟩ : Block) → TD (g :: T) b < TD (g :: T) ⟨4, 1, 2, 9, [8, 9]⟩) ∧
+    s.best.map (·.id) = [4, 1, 0] ∧ [7, 8, 9].map s.txIdx = [some 1, some 2, some 2] := by
+  refine ⟨⟨rfl, by unfold UniqIds; decide, by decide, by decide⟩, by decide, by decide, by decide⟩
 
 end C25
